@@ -135,6 +135,8 @@ struct Ctx {
     roots: Vec<(Vec<String>, Vec<String>)>,
     /// local variables bound by `if let` / `let`: name → (field path, render already applied)
     locals: HashMap<String, (Vec<String>, Vec<Fold>, Option<Render>)>,
+    /// parameters of an inlined helper that were given a string literal
+    lits: HashMap<String, String>,
     what: String,
 }
 
@@ -271,20 +273,42 @@ struct Walk<'a> {
     pending: Option<(Guard, String)>,
     label_src: Option<Vec<String>>,
     ctx_fields: Vec<(String, Src)>,
-    peers_fn: &'a syn::ItemFn,
+    /// files whose free functions may be inlined when they are handed the argument vector
+    files: Vec<&'a syn::File>,
+    depth: usize,
     args_var: String,
 }
 
+/// `OsString::from(E)`, `E.into()`, `OsString::from(E).into()` → E
 fn os_from_arg(e: &syn::Expr) -> Option<&syn::Expr> {
-    if let syn::Expr::Call(c) = e {
-        if compact(&c.func) == "OsString::from" && c.args.len() == 1 {
-            return Some(&c.args[0]);
-        }
+    match e {
+        syn::Expr::Call(c) if compact(&c.func) == "OsString::from" && c.args.len() == 1 => Some(&c.args[0]),
+        syn::Expr::MethodCall(m) if m.method == "into" && m.args.is_empty() => Some(os_from_arg(&m.receiver).unwrap_or(&m.receiver)),
+        _ => None,
     }
-    None
 }
 
 impl<'a> Walk<'a> {
+    /// a free function (any visibility) of the known files, called with the argument vector among its arguments
+    fn helper_fn(&self, func: &syn::Expr, args: &syn::punctuated::Punctuated<syn::Expr, syn::Token![,]>) -> Option<&'a syn::ItemFn> {
+        let name = match func {
+            syn::Expr::Path(p) => p.path.segments.last()?.ident.to_string(),
+            _ => return None,
+        };
+        if !args.iter().any(|a| {
+            let c = compact(a);
+            c == self.args_var || c == format!("&mut{}", self.args_var)
+        }) {
+            return None;
+        }
+        for file in &self.files {
+            if let Ok(f) = free_fn(file, &name) {
+                return Some(f);
+            }
+        }
+        None
+    }
+
     fn flush(&mut self) {
         if let Some((g, f)) = self.pending.take() {
             self.entries.push(Entry { guard: g, flag: Some(f), value: None });
@@ -293,6 +317,19 @@ impl<'a> Walk<'a> {
 
     fn push(&mut self, e: &syn::Expr, guard: &Guard, cx: &Ctx) -> Result<(), String> {
         let inner = os_from_arg(e).ok_or_else(|| format!("{}: pushed `{}` is not OsString::from(..)", cx.what, toks(e)))?;
+        let lit_param = match inner {
+            syn::Expr::Path(p) if p.path.segments.len() == 1 => cx.lits.get(&p.path.segments[0].ident.to_string()).cloned(),
+            _ => None,
+        };
+        if let Some(v) = lit_param {
+            let name = v.strip_prefix("--").ok_or_else(|| format!("{}: literal argument {v:?} is not a long option", cx.what))?;
+            if name.is_empty() || name.starts_with('-') || name.contains('=') || name.contains(' ') {
+                return Err(format!("{}: literal argument {v:?} is not a plain long option", cx.what));
+            }
+            self.flush();
+            self.pending = Some((guard.clone(), name.to_string()));
+            return Ok(());
+        }
         if let syn::Expr::Lit(l) = inner {
             if let syn::Lit::Str(s) = &l.lit {
                 let v = s.value();
@@ -383,28 +420,69 @@ impl<'a> Walk<'a> {
         match e {
             // args.push(OsString::from(..))
             syn::Expr::MethodCall(m) if m.method == "push" && m.args.len() == 1 && compact(&m.receiver) == self.args_var => self.push(&m.args[0], guard, cx),
-            // push_arguments_from_peers_args(&P, &mut args)
-            syn::Expr::Call(c) if compact(&c.func).ends_with("push_arguments_from_peers_args") && c.args.len() == 2 => {
-                if !top {
-                    return Err(format!("{}: peers helper called under a guard", cx.what));
+            // helper(.., &mut args, ..): a free function of the same crate files that is handed the argument
+            // vector is inlined, its parameters bound to what the call passes
+            syn::Expr::Call(c) if self.helper_fn(&c.func, &c.args).is_some() => {
+                let f = self.helper_fn(&c.func, &c.args).unwrap();
+                let fname = f.sig.ident.to_string();
+                if self.depth >= 3 {
+                    return Err(format!("{}: helper calls nested too deeply at `{fname}`", cx.what));
                 }
                 self.flush();
-                let (p, _) = cx.resolve(&raw_path(&c.args[0])?)?;
-                let f = self.peers_fn;
                 let mut names = vec![];
                 for a in &f.sig.inputs {
-                    if let syn::FnArg::Typed(t) = a {
-                        names.push(compact(&t.pat));
+                    match a {
+                        syn::FnArg::Typed(t) => names.push(compact(&t.pat).trim_start_matches("mut").to_string()),
+                        _ => return Err(format!("{fname}: method receiver in a helper")),
                     }
                 }
-                if names.len() != 2 {
-                    return Err("push_arguments_from_peers_args: expected two parameters".into());
+                if names.len() != c.args.len() {
+                    return Err(format!("{fname}: parameter count"));
                 }
-                let sub = Ctx { roots: vec![(vec![names[0].clone()], p)], locals: HashMap::new(), what: "push_arguments_from_peers_args".into() };
-                let saved = std::mem::replace(&mut self.args_var, names[1].clone());
-                self.block(&f.block.stmts, guard, &sub, false)?;
+                let mut sub = Ctx { roots: vec![], locals: HashMap::new(), lits: HashMap::new(), what: fname.clone() };
+                let mut new_args = None;
+                for (pn, a) in names.iter().zip(c.args.iter()) {
+                    let ac = compact(a);
+                    if ac == self.args_var || ac == format!("&mut{}", self.args_var) {
+                        new_args = Some(pn.clone());
+                        continue;
+                    }
+                    let inner = match a {
+                        syn::Expr::Reference(r) => &*r.expr,
+                        o => o,
+                    };
+                    if let syn::Expr::Lit(l) = inner {
+                        if let syn::Lit::Str(sl) = &l.lit {
+                            sub.lits.insert(pn.clone(), sl.value());
+                            continue;
+                        }
+                        return Err(format!("{fname}: non-string literal argument `{}`", toks(a)));
+                    }
+                    if let Ok(raw) = raw_path(a) {
+                        if let Some(v) = cx.lits.get(&raw[0]) {
+                            if raw.len() == 1 {
+                                sub.lits.insert(pn.clone(), v.clone());
+                                continue;
+                            }
+                        }
+                        let (p, fo, r) = cx.resolve3(&raw)?;
+                        if fo.is_empty() && r.is_none() {
+                            sub.roots.push((vec![pn.clone()], p));
+                        } else {
+                            sub.locals.insert(pn.clone(), (p, fo, r));
+                        }
+                        continue;
+                    }
+                    let (p, fo, r) = cx.value(a)?;
+                    sub.locals.insert(pn.clone(), (p, fo, Some(r)));
+                }
+                let new_args = new_args.ok_or_else(|| format!("{fname}: is not handed the argument vector"))?;
+                let saved = std::mem::replace(&mut self.args_var, new_args);
+                self.depth += 1;
+                let r = self.block(&f.block.stmts, guard, &sub, false);
+                self.depth -= 1;
                 self.args_var = saved;
-                Ok(())
+                r
             }
             syn::Expr::If(i) => {
                 self.flush();
@@ -493,9 +571,9 @@ impl<'a> Walk<'a> {
     }
 }
 
-fn table_of(f: &syn::ImplItemFn, roots: Vec<(Vec<String>, Vec<String>)>, peers_fn: &syn::ItemFn, what: &str) -> Result<(Vec<Entry>, Vec<(String, Src)>), String> {
-    let mut w = Walk { entries: vec![], pending: None, label_src: None, ctx_fields: vec![], peers_fn, args_var: "args".into() };
-    let cx = Ctx { roots, locals: HashMap::new(), what: what.to_string() };
+fn table_of<'a>(f: &syn::ImplItemFn, roots: Vec<(Vec<String>, Vec<String>)>, files: Vec<&'a syn::File>, what: &str) -> Result<(Vec<Entry>, Vec<(String, Src)>), String> {
+    let mut w = Walk { entries: vec![], pending: None, label_src: None, ctx_fields: vec![], files, depth: 0, args_var: "args".into() };
+    let cx = Ctx { roots, locals: HashMap::new(), lits: HashMap::new(), what: what.to_string() };
     w.block(&f.block.stmts, &Guard::Always, &cx, true)?;
     if w.ctx_fields.is_empty() {
         return Err(format!("{what}: no `Ok(ServiceInstallCtx {{ .. }})` found"));
@@ -517,7 +595,160 @@ impl<'ast, 'a> syn::visit::Visit<'ast> for FindStruct<'a> {
     }
 }
 
+// ---------- locals of add_node, named by what they are bound to (not by their identifier) ----------
+/// `let` bindings of a function body: top-level statements and the top-level statements of its loops.
+fn collect_lets(stmts: &[syn::Stmt], out: &mut Vec<(String, syn::Expr)>) {
+    for st in stmts {
+        match st {
+            syn::Stmt::Local(l) => {
+                let pat = match &l.pat {
+                    syn::Pat::Type(t) => &*t.pat,
+                    p => p,
+                };
+                if let (syn::Pat::Ident(i), Some(init)) = (pat, &l.init) {
+                    out.push((i.ident.to_string(), (*init.expr).clone()));
+                }
+            }
+            syn::Stmt::Expr(syn::Expr::While(w), _) => collect_lets(&w.body.stmts, out),
+            syn::Stmt::Expr(syn::Expr::ForLoop(w), _) => collect_lets(&w.body.stmts, out),
+            syn::Stmt::Expr(syn::Expr::Loop(w), _) => collect_lets(&w.body.stmts, out),
+            _ => {}
+        }
+    }
+}
+
+fn strip(e: &syn::Expr) -> &syn::Expr {
+    match e {
+        syn::Expr::Reference(r) => strip(&r.expr),
+        syn::Expr::Paren(p) => strip(&p.expr),
+        syn::Expr::Group(p) => strip(&p.expr),
+        syn::Expr::Try(t) => strip(&t.expr),
+        o => o,
+    }
+}
+
+/// receiver at the bottom of a chain of `.join(..)` / `.clone()` calls, if the chain has at least one join
+fn join_chain_root(e: &syn::Expr) -> Option<&syn::Expr> {
+    let mut cur = strip(e);
+    let mut joins = 0;
+    loop {
+        match cur {
+            syn::Expr::MethodCall(m) if m.method == "join" && m.args.len() == 1 => {
+                joins += 1;
+                cur = strip(&m.receiver);
+            }
+            syn::Expr::MethodCall(m) if (m.method == "clone" || m.method == "to_path_buf") && m.args.is_empty() => cur = strip(&m.receiver),
+            _ => break,
+        }
+    }
+    if joins > 0 { Some(cur) } else { None }
+}
+
+/// value expressions of the branches of an `if .. else if .. else ..`
+fn branch_tails<'e>(e: &'e syn::Expr, out: &mut Vec<&'e syn::Expr>) -> bool {
+    match strip(e) {
+        syn::Expr::If(i) => {
+            match i.then_branch.stmts.last() {
+                Some(syn::Stmt::Expr(t, None)) => {
+                    if !branch_tails(t, out) {
+                        return false;
+                    }
+                }
+                _ => return false,
+            }
+            match &i.else_branch {
+                Some((_, e)) => branch_tails(e, out),
+                None => false,
+            }
+        }
+        syn::Expr::Block(b) => match b.block.stmts.last() {
+            Some(syn::Stmt::Expr(t, None)) => branch_tails(t, out),
+            _ => false,
+        },
+        o => {
+            out.push(o);
+            true
+        }
+    }
+}
+
+struct Roles {
+    lets: Vec<(String, syn::Expr)>,
+}
+
+impl Roles {
+    /// canonical name of a local of `add_node`, decided by the expression it is bound to
+    fn role(&self, ident: &str, depth: usize) -> Result<String, String> {
+        if depth > 4 {
+            return Err(format!("add_node: binding chain of `{ident}` is too deep"));
+        }
+        let defs: Vec<&syn::Expr> = self.lets.iter().filter(|(n, _)| n == ident).map(|(_, e)| e).collect();
+        if defs.len() != 1 {
+            return Err(format!("add_node: local `{ident}` has {} `let` bindings (need exactly one to know what it is)", defs.len()));
+        }
+        let e = strip(defs[0]);
+        let c = compact(e);
+        match e {
+            syn::Expr::Macro(m) if m.mac.path.is_ident("format") && m.mac.tokens.to_string().replace(' ', "").starts_with("\"antnode{") => return Ok("service_name".into()),
+            syn::Expr::Call(call) if compact(&call.func).ends_with("get_start_port_if_applicable") && call.args.len() == 1 => {
+                let raw = raw_path(&call.args[0])?;
+                if raw.len() == 2 && raw[0] == "options" {
+                    return Ok(if raw[1] == "node_port" { "node_port".into() } else { format!("{}_start", raw[1]) });
+                }
+            }
+            syn::Expr::Match(m) => {
+                if let Ok(raw) = raw_path(&m.expr) {
+                    if raw == ["options", "owner"] {
+                        return Ok("owner".into());
+                    }
+                }
+            }
+            syn::Expr::Binary(b) if matches!(b.op, syn::BinOp::Add(_)) && compact(&b.right) == "1" => return Ok("node_number".into()),
+            _ => {}
+        }
+        if let Some(root) = join_chain_root(e) {
+            if let Ok(raw) = raw_path(root) {
+                if raw == ["options", "service_data_dir_path"] {
+                    return Ok("service_data_dir_path".into());
+                }
+                if raw == ["options", "service_log_dir_path"] {
+                    return Ok("service_log_dir_path".into());
+                }
+                if raw.len() == 1 && self.role(&raw[0], depth + 1).as_deref() == Ok("service_data_dir_path") {
+                    return Ok("service_antnode_path".into());
+                }
+            }
+        }
+        let mut tails = vec![];
+        if matches!(e, syn::Expr::If(_)) && branch_tails(e, &mut tails) && !tails.is_empty() {
+            if tails.iter().all(|t| matches!(t, syn::Expr::Call(call) if compact(&call.func) == "SocketAddr::new")) {
+                return Ok("rpc_socket_addr".into());
+            }
+            if tails.iter().all(|t| join_chain_root(t).and_then(|r| raw_path(r).ok()).map(|r| r == ["options", "service_log_dir_path"]).unwrap_or(false)) {
+                return Ok("service_log_dir_path".into());
+            }
+            if c.contains("get_available_port()") {
+                return Ok(if c.contains("options.enable_metrics_server") { "metrics_free_port".into() } else { "rpc_free_port".into() });
+            }
+        }
+        Err(format!("add_node: cannot tell what local `{ident}` is (bound to `{}`)", toks(e).chars().take(90).collect::<String>()))
+    }
+
+    fn canon(&self, raw: Vec<String>) -> Result<Src, String> {
+        if raw[0] == "options" {
+            return Ok(Src::Var(raw));
+        }
+        let mut q = vec![self.role(&raw[0], 0)?];
+        q.extend_from_slice(&raw[1..]);
+        Ok(Src::Var(q))
+    }
+}
+
 fn literal_in(block: &syn::Block, name: &str, what: &str) -> Result<Vec<(String, Src)>, String> {
+    literal_in_with(block, name, what, None)
+}
+
+fn literal_in_with(block: &syn::Block, name: &str, what: &str, roles: Option<&Roles>) -> Result<Vec<(String, Src)>, String> {
     let mut v = FindStruct { name, found: vec![] };
     syn::visit::Visit::visit_block(&mut v, block);
     if v.found.len() != 1 {
@@ -535,7 +766,10 @@ fn literal_in(block: &syn::Block, name: &str, what: &str) -> Result<Vec<(String,
         };
         let src = match raw_path(&f.expr) {
             Ok(raw) if raw == ["None"] => Src::Const("None".into()),
-            Ok(raw) => Src::Var(raw),
+            Ok(raw) => match roles {
+                Some(r) => r.canon(raw)?,
+                None => Src::Var(raw),
+            },
             Err(_) => Src::Const(compact(&f.expr)),
         };
         out.push((n, src));
@@ -615,11 +849,10 @@ pub fn generate(repo: &PathBuf) -> Result<String, String> {
     let svc = parse_file(&repo.join(svc_rel))?;
     let cmd = parse_file(&repo.join(cmd_rel))?;
 
-    let peers_fn = free_fn(&svc, "push_arguments_from_peers_args")?;
 
     // (a) install table
     let build = impl_fn(&cfg, "InstallNodeServiceCtxBuilder", None, "build")?;
-    let (install, install_ctx) = table_of(build, vec![(vec!["self".into()], vec![])], peers_fn, "InstallNodeServiceCtxBuilder::build")?;
+    let (install, install_ctx) = table_of(build, vec![(vec!["self".into()], vec![])], vec![&cfg, &svc], "InstallNodeServiceCtxBuilder::build")?;
 
     // (b) upgrade table
     let up = impl_fn(&svc, "NodeService", Some("ServiceStateActions"), "build_upgrade_install_context")?;
@@ -634,14 +867,16 @@ pub fn generate(repo: &PathBuf) -> Result<String, String> {
     let (upgrade, upgrade_ctx) = table_of(
         up,
         vec![(vec!["self".into(), "service_data".into()], vec![]), (vec![opt_param], vec!["#upgrade".into()])],
-        peers_fn,
+        vec![&svc],
         "NodeService::build_upgrade_install_context",
     )?;
 
     // (c) the two literals in add_node
     let add_node = free_fn(&modf, "add_node")?;
-    let builder_lit = literal_in(&add_node.block, "InstallNodeServiceCtxBuilder", "add_node")?;
-    let data_lit = literal_in(&add_node.block, "NodeServiceData", "add_node")?;
+    let mut roles = Roles { lets: vec![] };
+    collect_lets(&add_node.block.stmts, &mut roles.lets);
+    let builder_lit = literal_in_with(&add_node.block, "InstallNodeServiceCtxBuilder", "add_node", Some(&roles))?;
+    let data_lit = literal_in_with(&add_node.block, "NodeServiceData", "add_node", Some(&roles))?;
     // registry-wide environment: WHERE `if options.env_variables.is_some() { node_registry.environment_variables.clone_from(&options.env_variables); .. }`
     // stands among the top-level statements of add_node, relative to the install loop and to the
     // `return Err(..)` taken when some installs failed
@@ -666,14 +901,14 @@ pub fn generate(repo: &PathBuf) -> Result<String, String> {
                 }
                 loop_idx = Some(i);
             }
-        } else if c.starts_with("if!failed_service_data.is_empty(){") && c.contains("returnErr(") {
+        } else if loop_idx.is_some() && failret_idx.is_none() && c.starts_with("if!") && c.contains(".is_empty(){") && c.contains("returnErr(") {
             failret_idx = Some(i);
         } else if c.contains("environment_variables") && !c.starts_with("letinstall_ctx") {
             return Err(format!("add_node: registry-wide environment touched by an unknown statement `{}`", c.chars().take(100).collect::<String>()));
         }
     }
     let loop_idx = loop_idx.ok_or("add_node: no install loop at the top level")?;
-    let failret_idx = failret_idx.ok_or("add_node: no `if !failed_service_data.is_empty() { .. return Err(..) }` at the top level")?;
+    let failret_idx = failret_idx.ok_or("add_node: no `if !<failed>.is_empty() { .. return Err(..) }` after the install loop")?;
     if failret_idx < loop_idx {
         return Err("add_node: the failure return precedes the install loop".into());
     }
@@ -696,18 +931,11 @@ pub fn generate(repo: &PathBuf) -> Result<String, String> {
     let mut locals_lit: Vec<(String, Src)> = vec![];
     for st in &add_node.block.stmts {
         if let syn::Stmt::Local(l) = st {
-            if compact(&l.pat) != "owner" {
-                continue;
-            }
-            let init = l.init.as_ref().ok_or("add_node: `let owner` without initialiser")?;
-            let m = match &*init.expr {
-                syn::Expr::Match(m) => m,
-                o => return Err(format!("add_node: owner computed by `{}`", toks(o).chars().take(80).collect::<String>())),
+            let Some(init) = l.init.as_ref() else { continue };
+            let m = match strip(&init.expr) {
+                syn::Expr::Match(m) if raw_path(&m.expr).map(|r| r == ["options", "owner"]).unwrap_or(false) => m,
+                _ => continue,
             };
-            let scrut = raw_path(&m.expr)?;
-            if scrut != ["options", "owner"] {
-                return Err(format!("add_node: owner computed from `{}`", scrut.join(".")));
-            }
             let mut found = None;
             for arm in &m.arms {
                 let pat = compact(&arm.pat);
@@ -749,24 +977,33 @@ pub fn generate(repo: &PathBuf) -> Result<String, String> {
             locals_lit.push(("owner".into(), if folds.is_empty() { Src::Var(vec!["options".into(), "owner".into()]) } else { Src::Folded(vec!["options".into(), "owner".into()], folds) }));
         }
     }
-    if locals_lit.is_empty() && add_src.contains("letowner") {
-        return Err("add_node: `owner` local in an unknown position".into());
-    }
+    let _ = &add_src;
 
     // (d) UpgradeOptions literal in `antctl upgrade`
     let upf = free_fn(&cmd, "upgrade")?;
     let mut up_lit = literal_in(&upf.block, "UpgradeOptions", "cmd::node::upgrade")?;
     let up_src = compact(&upf.block);
-    let node_is_entry = up_src.contains("letnode=&mutnode_registry.nodes[index];");
-    let env_shape = up_src.contains("letenv_variables=ifprovided_env_variables.is_some(){&provided_env_variables}else{&node_registry.environment_variables};");
+    let bound_to = |rhs: &str| -> Option<String> {
+        let i = up_src.find(rhs)?;
+        let head = &up_src[..i];
+        let j = head.rfind("let")?;
+        let name = head[j + 3..].trim_start_matches("mut").to_string();
+        if !name.is_empty() && name.chars().all(|c| c.is_alphanumeric() || c == '_') { Some(name) } else { None }
+    };
+    let node_var = bound_to("=&mutnode_registry.nodes[index];");
+    let env_var = bound_to("=ifprovided_env_variables.is_some(){&provided_env_variables}else{&node_registry.environment_variables};");
+    let node_is_entry = node_var.is_some();
+    let env_shape = env_var.is_some();
+    let node_var = node_var.unwrap_or_else(|| "node".into());
+    let env_var = env_var.unwrap_or_else(|| "env_variables".into());
     for (k, v) in up_lit.iter_mut() {
         if let Src::Var(p) = v {
-            if p.len() == 2 && p[0] == "node" {
+            if p.len() == 2 && p[0] == node_var {
                 if !node_is_entry {
                     return Err("cmd::node::upgrade: `node` is not `&mut node_registry.nodes[index]`".into());
                 }
                 *v = Src::Var(vec![p[1].clone()]);
-            } else if p.len() == 1 && p[0] == "env_variables" && k == "env_variables" {
+            } else if p.len() == 1 && p[0] == env_var && k == "env_variables" {
                 if !env_shape {
                     return Err("cmd::node::upgrade: `env_variables` is not `provided or registry-wide`".into());
                 }
